@@ -2,8 +2,8 @@
 import copy
 from trees import *
 
-RULE = ("seeded random validated models (all value/sign combinations, mixed atom/compound children, integer leaves incl. "
-        "negative bounds, explicit/generated ids); negate() output compared structurally (ids, bounds, sign, value, "
+RULE = ("two seeded streams: (1) random validated models (all value/sign combinations, mixed atom/compound children, integer leaves incl. "
+        "negative bounds, explicit/generated ids), (2) a targeted stream of positively signed nodes over compound and atom children with every value / atom-bounds combination (boolean, non-negative integer, negative, degenerate), alone, nested, and under Any / Imply; negate() output compared structurally (ids, bounds, sign, value, "
         "children order, generated flag) with the model; all (<=512 quick) in-bounds leaf assignments evaluated on the "
         "original and on the negation by the real evaluate; non-trivial = has a compound child or an integer leaf")
 ASSUMPTIONS = ["validated, reference-free models", "assignments within declared leaf bounds"]
@@ -39,8 +39,50 @@ def do_case(ctx, inp):
         ctx.fail("explicit-id-lost", {"id": t["id"], "negated_id": tn["id"]})
 
 
+ATOM_BOUNDS = [(0, 1), (0, 1), (0, 2), (0, 3), (1, 3), (-1, 1), (-2, 0), (2, 2), (0, 5)]
+
+
+def gen_mixed(rng, depth=1):
+    """a positively signed node over compound *and* atom children, with every value / atom-bounds combination:
+    the branch of negate() where the inward push has to decide between grouping, wrapping and not pushing"""
+    names = list("abcdefgh")
+    rng.shuffle(names)
+    atoms = []
+    for _ in range(rng.randint(1, 3)):
+        lo, hi = rng.choice(ATOM_BOUNDS)
+        atoms.append({"c": "var", "id": names.pop(), "lo": lo, "hi": hi})
+    comps = []
+    for _ in range(rng.randint(1, 2)):
+        if depth > 0 and rng.random() < 0.3:
+            comps.append(gen_mixed(rng, depth - 1))
+        else:
+            k = rng.choice(["Any", "All", "AtMost"])
+            args = [{"c": "str", "id": x} for x in rng.sample("pqrs", rng.randint(1, 2))]
+            c = {"c": k, "args": args}
+            if k == "AtMost": c["v"] = rng.randint(0, 2)
+            comps.append(c)
+    node = {"c": "AtLeast", "v": rng.randint(-1, 4), "args": comps + atoms}
+    if rng.random() < 0.6: node["sign"] = 1
+    if rng.random() < 0.5: node["id"] = f"M{rng.randint(1, 999)}"
+    r = rng.random()
+    if depth > 0 and r < 0.2: return {"c": "Any", "args": [node, {"c": "str", "id": "z"}]}
+    if depth > 0 and r < 0.3: return {"c": "Imply", "cond": node, "cons": {"c": "str", "id": "z"}}
+    return node
+
+
 def run(ctx):
     n_models = (150 if ctx.quick else 3000) * (3 if ctx.search else 1)
     for _ in range(n_models):
         a, o, t = gen_valid(ctx.rng, ctx.quick, wide_p=0.02)
         do_case(ctx, {"ast": a})
+    for _ in range(n_models):
+        for _ in range(20):
+            a = gen_mixed(ctx.rng)
+            try:
+                o = build(a)
+            except Exception:
+                continue
+            if not is_var(o) and well_formed(snap(o)) and not o.errors():
+                do_case(ctx, {"ast": a})
+                ctx.tags["targeted-mixed-stream"] += 1
+                break
